@@ -336,133 +336,75 @@ def r5(fx):
                      got=(f'+ {bad[0]} x{bad[1]} (encodings {bad[2]}/{bad[3]}): {bad[4]}, bookkeeping consistent={bad[5]}' if bad
                           else 'merged only when the first part ends on a group boundary'),
                      want='merge only if same mode, same encoding and char_count % group == 0; modes/bit_length consistent')
-    # prepare_data feeds every part through make_segment -> add_segment in order
+    # prepare_data feeds every part through make_segment -> add_segment in order (interpreted with recording stand-ins)
     pd = fx.fn('encoder', 'prepare_data')
-    calls = [c for c in src.calls_in(pd) if (src.resolve_call(c, src.local_aliases(pd)) or '').endswith('.add_segment')]
-    okp = len(calls) == 2 and all(isinstance(c.args[0], ast.Call) and src.call_name(c.args[0]) == 'make_segment' for c in calls)
-    yield ob('prepare_data: add_segment(make_segment(part, mode, encoding)) for the single content and for each part', okp, pd,
-             got=[ast.unparse(c)[:70] for c in calls], want='two add_segment(make_segment(...)) sites')
-    loop = [s for s in pd.body if isinstance(s, ast.For)]
-    yield ob('prepare_data iterates the parts in order', len(loop) == 1 and ast.unparse(loop[0].iter) == 'content', pd,
-             got=[ast.unparse(l.iter) for l in loop], want='for item in content')
+    log = []
+
+    class SegsRec:
+        _model = ('add_segment',)
+
+        def add_segment(self, seg):
+            log.append(('add', seg))
+
+    def make_segment(content, mode, encoding=None):
+        log.append(('make', content, mode, encoding))
+        return ('SEG', content)
+    genv2 = encoder_env(fx.forest, it, Segments=SegsRec, make_segment=make_segment)
+    pdf = FuncVal(pd, genv2, it)
+    N, B = md['numeric'], md['byte']
+    cases = [('a string', 'ABC', None, None, [('ABC', None, None)]), ('an integer', 123, N, None, [(123, N, None)]), ('bytes', b'xy', B, 'utf-8', [(b'xy', B, 'utf-8')]),
+             ('a list of parts with own modes / encodings', ['A', ('B', N), ('C', None, 'utf-8'), ('D', B, 'latin-1'), ('E',), 7], md['alphanumeric'], 'cp1252',
+              [('A', md['alphanumeric'], 'cp1252'), ('B', N, 'cp1252'), ('C', md['alphanumeric'], 'utf-8'), ('D', B, 'latin-1'), ('E', md['alphanumeric'], 'cp1252'),
+               (7, md['alphanumeric'], 'cp1252')]),
+             ('a tuple of strings', ('x', 'y', 'z'), None, None, [('x', None, None), ('y', None, None), ('z', None, None)])]
+    for title, content, mode, enc, want in cases:
+        log.clear()
+        res = pdf(content, mode, enc)
+        makes = [x[1:] for x in log if x[0] == 'make']
+        adds = [x[1] for x in log if x[0] == 'add']
+        ok = makes == want and adds == [('SEG', w[0]) for w in want] and isinstance(res, SegsRec) and \
+            [x[0] for x in log] == ['make', 'add'] * len(want)
+        yield ob(f'prepare_data of {title}: every part goes through make_segment(part, its mode or the global one, its encoding or the global one) and add_segment, in order',
+                 ok, pd, got=(makes if makes != want else 'as required'), want=want)
 
 
-@rule('C01', 'R6', 2, 'is_kanji accepts exactly sequences of valid Shift JIS double-byte characters in the two ISO ranges')
-def r6(fx):
-    fn = fx.fn('encoder', 'is_kanji')
-    it = Interp(max_steps=30_000_000)
-    f = make_callable(fx.forest, 'encoder', 'is_kanji', it)
-    full = fx.tier == 'thorough'
-    lows = range(256) if full else _pair_lows(fn.body)
-    bad = None
-    n = 0
-    for hi in range(256):
-        for lo in lows:
-            code = (hi << 8) | lo
-            n += 1
-            got = bool(f(bytes([hi, lo])))
-            want = kanji_ref(code) is not None
-            if got != want and bad is None:
-                bad = (hex(code), got, want)
-            # as second character after a valid one
-            if lo in (0x40, 0x7F, 0xFC) or hi in (0x81, 0x9F, 0xE0, 0xEB):
-                got2 = bool(f(bytes([0x88, 0x9F, hi, lo])))
-                if got2 != want and bad is None:
-                    bad = ('889f' + hex(code)[2:], got2, want)
-    yield ob(f'is_kanji on {n} byte pairs (partition of [0, 65535])', bad is None, fn,
-             got=f'{bad[0]}: {bad[1]}' if bad else 'valid characters only', want=f'{bad[2]}' if bad else 'valid characters only')
-    odd = [bool(f(b)) for b in (b'', b'\x88', b'\x88\x9f\x88')]
-    yield ob('is_kanji rejects empty and odd-length input', odd == [False, False, False], fn, got=odd, want=[False] * 3)
 
-
-class StrModel:
-    """A text whose encodability is a parameter (no characters involved)."""
-    _model = ('encode',)
-
-    def __init__(self, fails):
-        self.fails, self.tried = set(fails), []
-
-    def encode(self, encoding):
-        self.tried.append(encoding)
-        if encoding in self.fails:
-            raise UnicodeEncodeError(encoding, '', 0, 1, 'model')
-        return EncBytes(encoding)
-
-
-class EncBytes:
-    def __init__(self, encoding):
-        self.encoding = encoding
-
-    def __len__(self):
-        return 7
-
-    def __eq__(self, o):
-        return isinstance(o, EncBytes) and o.encoding == self.encoding
-
-
-@rule('C01', 'R7', 9, 'data_to_bytes: bytes unchanged; requested codec only; else ISO-8859-1, Shift JIS, UTF-8; reports the codec used')
-def r7(fx):
-    fn = fx.fn('encoder', 'data_to_bytes')
-    it = Interp()
-    genv = encoder_env(fx.forest, it, str=lambda x: x if isinstance(x, StrModel) else str(x))
-    f = FuncVal(fn, genv, it)
-    d, k = C(fx, 'DEFAULT_BYTE_ENCODING'), C(fx, 'KANJI_ENCODING')
-    for fails, want_enc, want_tried in (((), d, [d]), ((d,), k, [d, k]), ((d, k), 'utf-8', [d, k, 'utf-8'])):
-        s = StrModel(fails)
-        data, ln, enc = f(s, None)
-        yield ob(f'no encoding requested, not encodable in {list(fails)}', (enc, s.tried) == (want_enc, want_tried)
-                 and data == EncBytes(want_enc) and ln == 7, fn, got=(enc, s.tried), want=(want_enc, want_tried))
-    for req in ('utf-8', 'cp1252', 'shift_jis'):
-        s = StrModel(())
-        data, ln, enc = f(s, req)
-        yield ob(f'requested {req}: exactly that codec', (enc, s.tried) == (req, [req]) and data == EncBytes(req), fn,
-                 got=(enc, s.tried), want=(req, [req]))
-    s = StrModel(('ascii',))
-    try:
-        f(s, 'ascii')
-        got = 'returned'
-    except PyRaise as e:
-        got = e.name
-    yield ob('requested codec that cannot represent the text: error propagates (no fallback)', got in ('UnicodeEncodeError', 'UnicodeError')
-             and s.tried == ['ascii'], fn, got=(got, s.tried), want=('UnicodeEncodeError', ['ascii']))
-    for req, want_enc in ((None, d), ('utf-8', 'utf-8')):
-        raw = b'\x00\xff raw'
-        data, ln, enc = f(raw, req)
-        yield ob(f'bytes content (encoding={req}) is left unchanged', data is raw and ln == len(raw) and enc == want_enc, fn,
-                 got=(data, ln, enc), want=(raw, len(raw), want_enc))
-    data, ln, enc = f(12345, None)
-    yield ob('integers are converted through their decimal digits', (data, ln, enc) == (b'12345', 5, d), fn, got=(data, ln, enc),
-             want=(b'12345', 5, d))
-
-
-@rule('C01', 'R8', 3, '_encode emits SA header, then the segments in order, then terminator/padding')
+@rule('C01', 'R8', 3, '_encode emits SA header, then the segments in order, then terminator/padding; the final message is built from the same bit buffer')
 def r8(fx):
+    from .models import trace_encode, SAModel
     enc = fx.fn('encoder', '_encode')
-    order = []
-    for st in enc.body:
-        t = ast.unparse(st)
-        if isinstance(st, ast.If) and nf.same_inlined(enc, st.test, 'sa_info is not None'):
-            order.append('sa')
-        elif isinstance(st, ast.For) and 'write_segment' in t:
-            order.append('segments')
-            b = pat.match(st.iter, 'segments')
-            c = [x for x in src.calls_in(st, 'write_segment')]
-            bb = pat.match(c[0], f'write_segment(H_b, {ast.unparse(st.target)}, H_v, H_r, eci)') if len(c) == 1 else None
-            conv_names = {ast.unparse(t) for s_ in enc.body if isinstance(s_, ast.Assign) for t in s_.targets}
-            oks = b is not None and bb is not None and all(isinstance(bb[k], ast.Name) and bb[k].id in conv_names for k in ('b', 'v', 'r'))
-            yield ob('segments are written in list order with the symbol-level ver/ver_range/eci', oks, st, got=t[:100],
-                     want='for segment in segments: write_segment(buff, segment, ver, ver_range, eci)')
-        elif isinstance(st, ast.Expr) and isinstance(st.value, ast.Call) and src.call_name(st.value) == 'write_terminator':
-            order.append('terminator')
-        elif isinstance(st, ast.Assign) and 'make_final_message' in t:
-            order.append('final')
-    yield ob('order of emission in _encode', order == ['sa', 'segments', 'terminator', 'final'], enc, got=order,
-             want=['sa', 'segments', 'terminator', 'final'])
-    fm = [s for s in enc.body if isinstance(s, ast.Assign) and 'make_final_message' in ast.unparse(s)]
-    a = single(fm, 'make_final_message call')
-    bfm = pat.match(a.value, 'make_final_message(version, error, H_b)')
-    yield ob('final message built from (version, error, the bit buffer)', bfm is not None and isinstance(bfm['b'], ast.Name),
-             a, got=ast.unparse(a.value), want='make_final_message(version, error, buff)')
+    mv = micro_versions(fx)
+    for v, level, sa in ((5, 'M', SAModel((3, 1, 2, 0x5A))), (-2, 'L', None), (40, 'H', None)):
+        rv = mv[v] if v < 1 else v
+        rec, res, info = trace_encode(fx, rv, level, level, sa_info=sa, nsegs=3)
+        names = [r[0] for r in rec]
+        buf = info['buffers'][0] if len(info['buffers']) == 1 else None
+        probs = []
+        ws = [r for r in rec if r[0] == 'write_segment']
+        if buf is None:
+            probs.append(f'{len(info["buffers"])} bit buffers')
+        else:
+            header = buf.appends[:len([a for a in buf.appends if a[0] != 'extend'])]
+            want_hdr = [(3, 4), (1, 4), (2, 4), (0x5A, 8)] if sa is not None else []
+            first_len = ws[0][3] if ws else None
+            if [a for a in buf.appends if isinstance(a[0], int)] != want_hdr:
+                probs.append(f'header bits {[a for a in buf.appends if isinstance(a[0], int)]}, expected {want_hdr}')
+            if first_len != sum(w for _, w in want_hdr):
+                probs.append(f'{first_len} bits precede the first segment')
+            segs = info['segments'].segments
+            ver_t, vr = (None, iso.version_range(v)) if v >= 1 else (rv, rv)
+            if [w[1][1] for w in ws] != segs or any(w[1][0] is not buf for w in ws):
+                probs.append('segments are not written in list order into the bit buffer')
+            if any(tuple(w[1][2:4]) != (ver_t, vr) or (list(w[1][4:]) + [w[2].get('eci', False)])[0] is not False for w in ws):
+                probs.append(f'write_segment(ver, ver_range, eci) = {[tuple(w[1][2:]) for w in ws][:1]}, expected ({ver_t}, {vr}, False)')
+            order = [n for n in names if n in ('write_segment', 'write_terminator', 'make_final_message')]
+            if order != ['write_segment'] * 3 + ['write_terminator', 'make_final_message']:
+                probs.append(f'order {order}')
+            fin = [r for r in rec if r[0] == 'make_final_message']
+            if not fin or fin[0][1][2] is not buf:
+                probs.append('the final message is not built from the bit buffer')
+        yield ob(f'_encode v{v} {"with" if sa else "without"} Structured Append header: header, segments in list order with the symbol-level ver / ver_range / eci, terminator, final message',
+                 not probs, enc, got='; '.join(probs[:3]) or 'as required', want='as required')
 
 
 @rule('C01', 'R10', 100, 'error boosting measures the content with the version search\'s measure (same eci / is_sa), so a boosted level still holds every bit')
